@@ -3,6 +3,7 @@
   conversions the translator emits: what they are over the integers. Core Lean only.
 -/
 import ScionTime.Model.GoPrelude
+import ScionTime.Model.F64
 namespace ScionTime.GoLemmas
 open ScionTime
 
@@ -119,5 +120,18 @@ theorem ite3_toInt (A B C P M : Int64) :
     by_cases h2 : A ≥ C
     · rw [if_pos (by simpa using h2), if_pos (hge.mp h2)]
     · rw [if_neg (by simpa using h2), if_neg (fun hh => h2 (hge.mpr hh))]
+
+/-! ### `int64(f)` for a double -/
+
+theorem toInt64_range (x : F64.F64) : -9223372036854775808 ≤ F64.toInt64 x ∧ F64.toInt64 x ≤ 9223372036854775807 := by
+  unfold F64.toInt64
+  split
+  · dsimp only
+    split <;> omega
+  · omega
+  · omega
+
+theorem ofInt_toInt64 (x : F64.F64) : (Int64.ofInt (F64.toInt64 x)).toInt = F64.toInt64 x :=
+  toInt_ofInt_of_fits _ (toInt64_range x).1 (toInt64_range x).2
 
 end ScionTime.GoLemmas
